@@ -42,6 +42,7 @@ def run(ctx):
     ctx.do(SI.rule_fk1, [SI.FSA])
     ctx.do(SI.rule_v2_rename)
     ctx.do(SI.rule_dv1)
+    ctx.do(SI.rule_acc1, [SI.FSA])
     ctx.do(u1, ENTRIES, min_functions=25)
     ctx.r.assume("set-based model equality over histories and the GAP "
                  "parser's string semantics are not decided (numerical / "
